@@ -112,6 +112,34 @@ pub fn run(prop: &str, thorough: bool, seed: u64, rep: &mut Report) {
                     }
                 }
             }
+            if prop == "C13" {
+                // indentation = depth x unit, for units and depths whose product crosses 8 / 16 / 32 / 64 / 256
+                // columns (an implementation that writes padding in chunks has its boundaries there)
+                rep.checks.push("C13: indentation of deeply nested containers (depth 1..20) for indent units of 1..255 spaces / 1..17 tabs == depth x unit".into());
+                fn nest(d: usize) -> RefValue { if d == 0 { RefValue::Num("1".into()) } else if d % 2 == 0 { RefValue::Arr(vec![nest(d - 1), RefValue::Null]) } else { RefValue::Obj(vec![("k".into(), nest(d - 1))]) } }
+                for (ch, n) in [(' ', 1usize), (' ', 2), (' ', 3), (' ', 4), (' ', 7), (' ', 8), (' ', 15), (' ', 16), (' ', 17), (' ', 31), (' ', 32), (' ', 33), (' ', 64), (' ', 255), ('\t', 1), ('\t', 2), ('\t', 16), ('\t', 17)] {
+                    for d in [1usize, 2, 3, 4, 5, 8, 9, 16, 17, 20] {
+                        let v = nest(d);
+                        let mut o = pretty(); o.indent_char = ch; o.indent_n = n; o.a_limit = Some(RefLimit::Always); o.o_limit = Some(RefLimit::Always);
+                        let real_v = to_real(&v);
+                        let printed = match guarded(rep, format!("nesting depth {} options={:?}", d, o), || real_v.print_with(real_opts(&o)).to_string()) { Some(p) => p, None => continue };
+                        rep.eval(true, fnv(printed.as_bytes()));
+                        let mut want = String::new(); ref_layout(&v, &o, 0, &mut want);
+                        if printed != want {
+                            // report the first line that differs, not the whole text
+                            let (a, b): (Vec<&str>, Vec<&str>) = (printed.lines().collect(), want.lines().collect());
+                            let i = (0..a.len().min(b.len())).find(|i| a[*i] != b[*i]).unwrap_or(a.len().min(b.len()));
+                            rep.violation("printed text == documented layout", "layout-indent", format!("containers nested {} deep, indent unit {:?} x {}", d, ch, n), format!("line {}: real has {} leading blanks, the layout {}", i, a.get(i).map(|l| l.len() - l.trim_start().len()).unwrap_or(0), b.get(i).map(|l| l.len() - l.trim_start().len()).unwrap_or(0)));
+                        }
+                    }
+                }
+                for (ch, n) in [(' ', 16u8), (' ', 15), (' ', 17), (' ', 255), ('\t', 16), (' ', 0)] {
+                    let ind = if ch == ' ' { Indent::Spaces(n) } else { Indent::Tabs(n) };
+                    let got = ind.to_string();
+                    rep.eval(true, fnv(got.as_bytes()) ^ n as u64);
+                    if got != ch.to_string().repeat(n as usize) { rep.violation("printed text == documented layout", "indent-unit", format!("Indent {:?} x {}", ch, n), format!("Display writes {} characters", got.chars().count())); }
+                }
+            }
             if prop == "C13" { for v in vals.iter().take(40) {
                 let r = to_real(v);
                 let (si, sc) = match (guarded(rep, format!("inline {:?}", v), || r.inline_print().to_string()), guarded(rep, format!("compact {:?}", v), || r.compact_print().to_string())) { (Some(a), Some(b)) => (a, b), _ => continue };
